@@ -1014,3 +1014,28 @@ func FuncName(fn *ssa.Function) string {
 	s = strings.ReplaceAll(s, RepoPath+"/", "")
 	return s
 }
+
+// ResultValue returns the k-th value a return hands back, looking through the result cells go/ssa
+// introduces in functions that defer (`*t1 = v; rundefers; t9 = *t1; return …, t9`): the value of the
+// last store into the cell in the return's own block. The result itself when it is not spilled.
+func ResultValue(r *ssa.Return, k int) ssa.Value {
+	if k >= len(r.Results) {
+		return nil
+	}
+	v := r.Results[k]
+	ld, ok := v.(*ssa.UnOp)
+	if !ok || ld.Op != token.MUL {
+		return v
+	}
+	al, ok := ld.X.(*ssa.Alloc)
+	if !ok || al.Heap {
+		return v
+	}
+	b := r.Block()
+	for i := len(b.Instrs) - 1; i >= 0; i-- {
+		if st, ok := b.Instrs[i].(*ssa.Store); ok && st.Addr == ssa.Value(al) {
+			return st.Val
+		}
+	}
+	return v
+}
